@@ -299,7 +299,7 @@ func (fc *fnCtx) checkFrame(st *State, fr *frame, kind string) {
 	// allowed targets per region
 	allowed := map[string][]string{}
 	everything := false
-	for _, m := range fc.eff.modifies {
+	for _, m := range fc.eff.modifiesFor() {
 		msc := fc.specCtxForClause(st, fr, m)
 		msc.heap = fr.entry
 		msc.now = fr.entryT
